@@ -20,5 +20,33 @@ package parser
 //@   assumes[kind] token.EOL <= t.(token.Type).Type && t.(token.Type).Type <= token.NotSticky
 //@ pred strlitShape(t combinator.Token) bool := t.(token.Type).Type == token.StringLit ==> len(t.(token.Type).Value) >= 2 && strat(t.(token.Type).Value, 0) == '"'
 //
+// ---- tree builders (C07: "indexing tightest", "all binary levels left-associative") ---------------
+// idxChain(nodes, k) names the tree the documented grammar assigns to the first k+1 items of an
+// index chain `atom [..] [..] ...`: every index applies to the whole chain to its left.
+//@ ghost idxChain(nodes []combinator.Node, k int) combinator.Node
+//@ pred isRange(n combinator.Node) bool := dyntype(n) == typeid[node.BinOp]() && n.(node.BinOp).Op == ":"
+//@ func mkIndex [C07]
+//@   checks panic index slice [C07]
+//@   requires[nonempty] len(nodes) >= 1
+//@   assumes[def0] idxChain(nodes, 0) == nodes[0]
+//@   assumes[def_range] forall k :: 1 <= k && k < len(nodes) && isRange(nodes[k]) ==> dyntype(idxChain(nodes, k)) == typeid[node.IndexFromTo]()
+//@       && idxChain(nodes, k).(node.IndexFromTo).Ary == idxChain(nodes, k-1) && idxChain(nodes, k).(node.IndexFromTo).From == nodes[k].(node.BinOp).Left && idxChain(nodes, k).(node.IndexFromTo).To == nodes[k].(node.BinOp).Right
+//@   assumes[def_at] forall k :: 1 <= k && k < len(nodes) && !isRange(nodes[k]) ==> dyntype(idxChain(nodes, k)) == typeid[node.IndexAt]()
+//@       && idxChain(nodes, k).(node.IndexAt).Ary == idxChain(nodes, k-1) && idxChain(nodes, k).(node.IndexAt).At == nodes[k]
+//@   ensures[left_nested;C07] len(result) == 1 && result[0] == idxChain(nodes, len(nodes)-1)
+//@   loop 0 invariant -1 <= rangeindex && rangeindex < len(nodes) - 1 && r == idxChain(nodes, rangeindex + 1)
+//
+// lchain(nodes, j): the tree of `x0 op1 x1 ... opj xj` - every binary level is left-associative.
+//@ ghost lchain(nodes []combinator.Node, j int) combinator.Node
+//@ func mkLeftChain [C07]
+//@   checks panic index slice [C07]
+//@   requires[odd] len(nodes) % 2 == 1
+//@   assumes[operators] forall k :: 0 <= k && 2*k+1 < len(nodes) ==> dyntype(nodes[2*k+1]) == typeid[node.BinOp]()
+//@   assumes[def0] lchain(nodes, 0) == nodes[0]
+//@   assumes[def_step] forall j :: 1 <= j && 2*j < len(nodes) ==> dyntype(lchain(nodes, j)) == typeid[node.BinOp]()
+//@       && lchain(nodes, j).(node.BinOp).Op == nodes[2*j-1].(node.BinOp).Op && lchain(nodes, j).(node.BinOp).Left == lchain(nodes, j-1) && lchain(nodes, j).(node.BinOp).Right == nodes[2*j]
+//@   ensures[left_assoc;C07] len(result) == 1 && result[0] == lchain(nodes, (len(nodes)-1)/2)
+//@   loop 0 invariant 1 <= i && i % 2 == 1 && i <= len(nodes) && r == lchain(nodes, (i-1)/2)
+//
 //@ canary func (tokenWrapper).Wrap
 //@   ensures false
